@@ -82,7 +82,7 @@ func pick(r *rand.Rand, ws []weighted) string {
 }
 
 var denomKinds = []weighted{
-	{26, "enabled"}, {5, "hop"}, {6, "disabled"}, {8, "paused"}, {4, "dead"}, {8, "ext"}, {4, "extdry"}, {5, "siphon"}, {5, "delay"},
+	{26, "enabled"}, {7, "multi2nd"}, {5, "hop"}, {6, "disabled"}, {8, "paused"}, {4, "dead"}, {8, "ext"}, {4, "extdry"}, {5, "siphon"}, {5, "delay"},
 	{6, "unregistered"}, {4, "a-native"}, {5, "fresh"}, {5, "returning-stake"}, {5, "returning-bcoin"}, {2, "returning-overdraw"},
 	{2, "returning-unknown"}, {6, "hostile"},
 }
@@ -119,6 +119,8 @@ func (w *world) genSpec(r *rand.Rand, fullStack bool) *spec {
 	switch s.DenomKind {
 	case "enabled":
 		usePair(lbl([]string{"enabled0", "enabled1"}[r.Intn(2)]))
+	case "multi2nd":
+		usePair(lbl("multi1"))
 	case "hop":
 		usePair(lbl("hop0"))
 		s.honest = false
